@@ -141,3 +141,15 @@ def g_pair(r):
         w2 = fill(r, row)
     return "rvpair %s %s %d %s %s" % (variant, exts, addr_for(r, variant), w1.to_bytes(4, "little").hex(),
                                      w2.to_bytes(4, "little").hex())
+
+
+def sweep_lines(chunks=256):
+    """Thorough tier of C02: exhaustive sweep of all 2^32 words for the two full configurations."""
+    out = []
+    for variant in ("32", "64"):
+        rows = [x for x in spec_rows() if (x["rv32"] if variant == "32" else x["rv64"])]
+        rtxt = " ".join("%s %d %d" % (x["name"], x["match"], x["mask"]) for x in rows)
+        step = 2 ** 32 // chunks
+        for k in range(chunks):
+            out.append("rvsweep %s ima %d %d %d %s" % (variant, k * step, (k + 1) * step, len(rows), rtxt))
+    return out
